@@ -190,11 +190,14 @@ class ScnGen:
             v = rng.choice([maxv + 1, maxv + 1, maxv + 2, maxv + 255, maxv + 256, 2 ** 32, 2 ** 63, 2 ** 64 - 1,
                             maxv * 256 if maxv * 256 < 2 ** 64 else 2 ** 40])
             tail = good[:rng.choice([0, 0, 1, 20])]
-            if rng.random() < 0.4:
+            r = rng.random()
+            if r < 0.3:
                 # the low-order bytes alone would be the length of a perfectly good frame that follows
                 js = [j for j in range(1, 8) if len(good) + (1 << (8 * j)) > maxv]
                 v = len(good) + (rng.randint(1, 255) << (8 * rng.choice(js)))
                 tail = good
+            elif r < 0.7:
+                v, tail = self.wide_length(maxv, good)
             return b"P" + v.to_bytes(8, "little") + tail, "oversize"
         if fault == "maxhdr":     # a header announcing exactly the maximum: legal, the connection must stay
             return b"P" + maxv.to_bytes(8, "little"), "maxhdr"
@@ -243,6 +246,26 @@ class ScnGen:
             delta = rng.choice([-3, -1, 1, 2, 9])
             return F.mkframe(good, max(0, len(good) + delta)), "lenlie"
         raise ValueError(fault)
+
+    def wide_length(self, maxv, good):
+        """an illegal length anywhere in the 64-bit range, biased to the boundaries of every narrower / signed
+        reading of the field (2**15, 2**16, 2**31, 2**32, 2**63, 2**64) and to values for which header + length
+        (+ a few trailing bytes) wraps around such a boundary; followed by a perfectly good payload and 0..15
+        further bytes, so that a parser that mis-reads the length finds something deliverable"""
+        rng = self.rng
+        cands = []
+        for e in (15, 16, 31, 32, 63, 64):
+            m = 1 << e
+            k = rng.choice([1, 2, 8, 9, 10, 11, 12, 16, rng.randint(1, 40), 9 + rng.randint(0, 15)])
+            cands += [m - k, m - 1, m, m + 1, m + k, m - len(good), m - len(good) - 9,
+                      m - len(good) - 9 - rng.randint(0, 15), m + len(good)]
+        cands += [maxv + 1, maxv + 2, 2 * maxv, rng.randrange(maxv + 1, 1 << 64), rng.randrange(1 << 63, 1 << 64)]
+        cands = [v for v in cands if maxv < v < (1 << 64)]
+        v = rng.choice(cands)
+        t = rng.choice([0, 1, 1, 2, 3, 7, 8, 9, rng.randint(0, 15)])
+        trail = rng.choice([b"P" * t, bytes(rng.randrange(256) for _ in range(t)), F.mkframe(good)[:t]])
+        tail = rng.choice([good + trail, good + trail, good, trail, good[:len(good) // 2]])
+        return v, tail
 
     def cuts(self, pieces, mode):
         rng = self.rng
@@ -1014,6 +1037,38 @@ def with_cuts(base, cuts, send_at=0, loss_at=None):
 
 # ---------------------------------------------------------------------------------------------------------
 
+def length_sweep(quick=False):
+    """an oversize length field at frame index 1 of the small base stream, followed by a good payload and `t`
+    trailing bytes: boundary values of every width / signedness (MAX+1, 2**15, 2**16, 2**31, 2**32, 2**63, 2**64
+    each -k..+k) and the values for which 9 + length + t wraps to 0 at 2**32 / 2**64; each as one segment, cut
+    right after the header, and (not in the quick subset) byte by byte"""
+    real_max = 10000000
+    good = pickle.dumps(mk_msg("q", "L1", ("peerT", "po0"), (R_NAME, "o0"), 0, 1))
+    vals = set()
+    ks = (1, 9, 10, 12) if quick else tuple(range(1, 26))
+    for e in ((32, 64) if quick else (15, 16, 31, 32, 63, 64)):
+        m = 1 << e
+        for k in ks:
+            vals.update([m - k, m + k])
+        vals.update([m, m - len(good), m - len(good) - 9, m - len(good) - 10, m + len(good)])
+    vals.update([real_max + 1, real_max + 2, 2 * real_max])
+    out = []
+    for v in sorted(x for x in vals if real_max < x < (1 << 64)):
+        for t in ((0, 1, 3) if quick else range(0, 17)):
+            b = base_scenario("in", None, 1, None, None, 0, None)
+            piece = b"P" + v.to_bytes(8, "little") + good + b"P" * t
+            b["conns"][0]["pieces"].insert(2, piece.hex())
+            off = sum(len(p) // 2 for p in b["conns"][0]["pieces"][:2])
+            L = len(stream_of(b["conns"][0]))
+            out.append(dict(with_cuts(b, []), fault="oversize", mode="whole"))
+            if not quick or t == 1:
+                out.append(dict(with_cuts(b, [off + 9]), fault="oversize", mode="two"))
+                out.append(dict(with_cuts(b, [off]), fault="oversize", mode="two"))
+            if not quick and t in (0, 1):
+                out.append(dict(with_cuts(b, range(L)), fault="oversize", mode="single"))
+    return out
+
+
 def fixed_corpus():
     """deterministic scenarios that run first on every seed: every fault kind in both roles (one segment and, for
     the accepting side, single bytes), frames of exactly limit-1 / limit / limit+1, operations repeated or in an
@@ -1047,6 +1102,8 @@ def fixed_corpus():
                 b["conns"][0]["pieces"][0] = F.mkframe(pickle.dumps(mk_hs("peerT", True, "9" * (k + 1)))).hex()
             out.append(dict(with_cuts(b, []), fault=None, mode="whole"))
             out.append(dict(with_cuts(b, [300, 1200]), fault=None, mode="random"))
+    # length fields over the whole 64-bit range (see `length_sweep`), a few of them on every run
+    out += length_sweep(quick=True)
     # the same operation twice / unusual order
     b = base_scenario("in", None, 2, None, None, 0, None)
     scn = with_cuts(b, [])
@@ -1259,6 +1316,11 @@ class C06(Prop):
                     for c in range(max(1, off - 2), min(L, off + 14)):
                         try_scn(with_cuts(b, [c]))
                         try_scn(with_cuts(b, [off, c]))
+            if len(res.failures) >= 6:
+                return res
+        # length fields across the whole 64-bit range x trailing bytes x segmentations
+        for scn in length_sweep(quick=False):
+            try_scn(scn)
             if len(res.failures) >= 6:
                 return res
         # reduced size limit: frames of exactly max-1, max, max+1
